@@ -87,7 +87,7 @@ def diff_run(run, G, scen_args, prefix, nontrivial, label, known_key=None, tier=
         if h == "0":
             n_fail += 1
             fails.append((len(l), idx, l, m))
-        elif model != impl:
+        elif " ".join((model or "").split()) != " ".join(impl.split()):
             n_dis += 1
             disagreements.append((len(l), idx, l, m))
     # implementation-vs-independent-oracle lines emitted by the harness itself
@@ -524,6 +524,35 @@ def run_idlrt(run, cfg, G):
                        "the model renders and parses the same tree; oracle: parsed tree = original tree and re-rendering = text; non-trivial = rendered and parsed back; distinct = distinct case lines")
 
 
+# ------------------------------------------------------------------------------------ notified (C20)
+
+def notif_nontrivial(inp, impl):
+    ks = []
+    if ":i" in impl:
+        ks.append("items-delivered")
+    if "pend" in impl:
+        ks.append("pending-poll")
+    if inp.count(" n") >= 2:
+        ks.append("several-subscribers")
+    if " d" in inp:
+        ks.append("subscriber-dropped")
+    if inp.startswith("once"):
+        ks.append("one-shot")
+    return ks
+
+
+def run_notified(run, cfg, G):
+    for pre in ("notif", "once"):
+        diff_run(run, G, ["notified"], pre, notif_nontrivial, "notified-" + pre)
+    def search():
+        diff_run(run, G, ["notified"], "notif", notif_nontrivial, "notified-search", tier="thorough", seed_offset=1, record=False)
+    finish_corr(run, G, [search])
+    run.cov["rule"] = ("the same history run on zlink_tokio::notified::State and zlink_smol::notified::State with manual polling (noop waker): exhaustively every history of length <= 7 (thorough 8) over {set, new subscriber, poll subscriber k} "
+                       "with <= 4 (6) sets and <= 2 subscribers that ends in a poll, plus 3000 (60000) random histories of 5..40 operations with <= 3 subscribers and drops; one-shot scripts (notify before/after the first poll, notifier dropped); "
+                       "oracle: per subscriber each item is the latest value set since its previous item, marked continuing, pending exactly when nothing new was set, never an end; both runtimes produce the same tokens; "
+                       "non-trivial = items delivered / pending polls; distinct = distinct case lines")
+
+
 RX_ASSUME = [
     "which bytes are a JSON document of the requested shape is serde_json/serde's business: the model takes `decode this frame` as an opaque per-frame function (theorems hold for every such function); the harness instantiates it with the verdict of a fresh connection receiving that frame alone and cross-checks call receivers against serde_json::from_slice",
     "the ReadHalf contract: a read future that is dropped while pending has consumed nothing",
@@ -603,6 +632,16 @@ PROPS = {
             "the GetInterfaceDescription exchange end to end (serialize as string, deserialize, parse) is not yet part of this check",
         ],
     },
+    "C20": {
+        "property_modules": ["Zlink.Properties.C20"], "lean_modules": ["Zlink.Properties.C20"],
+        "theorems": ["C20.C20_runtimes_agree", "C20.C20_poll", "C20.C20_never_ends", "C20.C20_converges", "C20.C20_cursor_monotone",
+                     "C20.C20_subscribe_sees_later_only", "C20.C20_once"],
+        "run": run_notified, "package": "zvrt", "trusted_base": TB_COMMON,
+        "assumptions": [
+            "tokio::sync::broadcast + tokio_stream::BroadcastStream and async-broadcast (overflow mode), both with capacity 1, and the one-shot channels are MODELLED (counter + retained value + cursor), validated by running both real crates on every explored history; only the adapters on top are zlink's",
+            "polling is manual with a noop waker (no runtime scheduler involved); wake-ups are the channels' business",
+        ],
+    },
     "C17": {
         "property_modules": ["Zlink.Properties.C17"],
         "lean_modules": ["Zlink.Properties.C17"],
@@ -667,7 +706,7 @@ def replay(run, cfg, path, G):
     r = json.load(open(path))
     if "scenario" not in r:
         print(json.dumps(r, indent=1)); return
-    G["build_harness"](run)
+    G["build_harness"](run, cfg.get("package", "zv"))
     G["lake_build"](run, ["zmodel"])
     run.tier = r.get("tier", "quick")
     run.seed = r.get("seed", 1)
